@@ -147,6 +147,18 @@ TableShapeOK(a, t) ==
   /\ Len(t.act) = a.n /\ Len(t.goto) = a.n
   /\ \A s \in States(a) : Len(t.act[s + 1]) = C.nt /\ Len(t.goto[s + 1]) = C.nr
 
+\* production precedence as Yacc defines it: that of the %prec token, else of the production's
+\* last token (none if that token has none, or if there is no token)
+ExpectedPPrec(e, p) ==
+  LET rhs == e.prods[p + 1].rhs
+      toks == {i \in 1 .. Len(rhs) : IsToken(rhs[i])}
+  IN IF e.precname[p + 1] >= 0 THEN e.tprec[e.precname[p + 1] + 1]
+     ELSE IF toks = {} THEN <<-1, -1>> ELSE e.tprec[rhs[Max(toks)] + 1]
+PPrecDevs(e) ==
+  IF "precname" \notin DOMAIN e THEN {}
+  ELSE UNION { IfDev(e.pprec[p + 1] = ExpectedPPrec(e, p), "C03", "production precedence", <<p, e.pprec[p + 1], ExpectedPPrec(e, p)>>)
+               : p \in 0 .. e.np - 1 }
+
 C03TableDevs(a, t) ==
   UNION { UNION { IfDev(TAct(t, s, tk) = YaccAct(a, s, tk), "C03", "cell", <<s, tk, TAct(t, s, tk), YaccAct(a, s, tk)>>)
                   : tk \in Tokens } : s \in States(a) }
@@ -381,7 +393,8 @@ OnGrammar(e) ==
   THEN /\ Report(D("C10", "grammar object not well-formed", 0)) /\ ndev' = ndev + 1
        /\ UNCHANGED <<inst, C, X, A, T, pg, pvars>>
   ELSE /\ C' = MkCtx(e)
-       /\ UNCHANGED <<inst, A, T, ndev, X, pvars>>
+       /\ LET ds == Filter(IF On("CHK_C03") THEN PPrecDevs(e) ELSE {}) IN Report(ds) /\ ndev' = ndev + Cardinality(ds)
+       /\ UNCHANGED <<inst, A, T, X, pvars>>
        /\ pg' = IF On("REPLAY_PAGER") THEN "idle" ELSE "off"
 
 \* the oracle cache is computed in the step after the grammar is loaded (operators read C)
